@@ -43,6 +43,7 @@ type Op struct {
 	Var   int
 	Value hx.Hex
 	Ident int
+	Own   bool // the variable is addressed through an Efivar value the caller built itself (equal name, GUID value and attributes)
 }
 
 type Pre struct {
@@ -106,7 +107,7 @@ func genCase(t *rapid.T) Case {
 	for i := 0; i < n; i++ {
 		// few variables so that the same one is rewritten with longer and shorter values
 		v := rapid.SampledFrom([]int{0, 1, 2, 2, 2, 3, 4, 4, 5, 6}).Draw(t, "var")
-		op := Op{Var: v}
+		op := Op{Var: v, Own: rapid.IntRange(0, 2).Draw(t, "own_efivar_value") == 0}
 		switch k := rapid.IntRange(0, 9).Draw(t, "kind"); {
 		case k < 5:
 			op.Kind = "write"
@@ -240,6 +241,12 @@ func checkCase(c Case) error {
 	for i, op := range c.Ops {
 		vi := op.Var % len(vars)
 		v := vars[vi]
+		if op.Own {
+			// a variable is identified by its name and GUID value, not by which Efivar value or GUID pointer names it
+			g := util.StringToGUID(v.GUID.Format())
+			v = efivar.Efivar{Name: string(append([]byte{}, v.Name...)), GUID: g, Attributes: v.Attributes}
+			hx.Class("variable_addressed_through_a_caller_built_efivar_value")
+		}
 		step := fmt.Sprintf("after step %d (%s %s, %d bytes)", i, op.Kind, varNames[vi], len(op.Value))
 		switch op.Kind {
 		case "write":
